@@ -1095,7 +1095,12 @@ SPEC = {
             'repository assets and of documents built here (classic table, indirect Length, xref stream + object stream with and '
             'without predictor, incremental update), plus the Prev-chain shapes (self loops, cycles of 1-4 sections through the first '
             'section, rho shapes with a tail of 1-3 and a cycle of 1-4 sections, tables / streams / mixed, both file orders, XRefStm '
-            'pointers into the chain; also run through c01\'s loader model), all run in an isolated worker with time, stack and memory limits; '
+            'pointers into the chain; also run through c01\'s loader model), the deferred-Length family (Length N 0 R where N is a later '
+            'integer, a reference to a reference, a chain of three, an object-stream member, missing, a cycle; the value negative small / '
+            'large, zero, beyond the file, i64::MIN / MAX, a real, a name, a string, an array; table and stream format; load_mem and '
+            'load_from; also run through the loader model), ToUnicode CMaps that map nothing (codespace ranges only, no section, empty '
+            'sections, notdef ranges) with texts of 1-300 bytes (runs of zero bytes, a non-zero first byte) directly and through a loaded '
+            'file + extract_text, all run in an isolated worker with time, stack and memory limits; '
             'non-trivial = non-empty input; distinct = distinct case text',
     'extra_trusted': [
         'C04: nom, flate2, weezl, encoding_rs, stringprep, rangemap are assumed total (no panic sites of theirs are modelled)',
